@@ -121,11 +121,17 @@ impl Device {
                             | IndexOps::PreDecrement(reg)
                             | IndexOps::PostIncrementE(reg, _) => reg,
                         };
-                        match reg {
-                            Reg16::X => self.allow(NoXreg),
-                            Reg16::Y => self.allow(NoYreg),
-                            Reg16::Z => true,
-                        }
+                        // form with displacement is ldd/std under any mnemonic
+                        let displacement = match index {
+                            IndexOps::PostIncrementE(..) => self.allow(Tiny1x),
+                            _ => true,
+                        };
+                        displacement
+                            && match reg {
+                                Reg16::X => self.allow(NoXreg),
+                                Reg16::Y => self.allow(NoYreg),
+                                Reg16::Z => true,
+                            }
                     }
                     _ => true,
                 })
